@@ -519,3 +519,341 @@ pub fn run_c33(_batch: &str, tape: &mut Tape, rep: &mut Report) {
     rep.sim_ns = 0;
     rep.nontrivial = rep.trace.iter().any(|l| l.contains("sweep -> marked [\"")) || rep.trace.iter().filter(|l| l.contains("deploy")).count() >= 2;
 }
+
+// ───────────────────────────── C38 ─────────────────────────────
+
+/// What a coordinator shows of the cluster: workers (status, assignments, running count), group placements, connectors.
+fn view(c: &Coordinator) -> BTreeMap<String, String> {
+    let mut v = BTreeMap::new();
+    for (id, w) in &c.workers {
+        let mut a = w.assigned_pipelines.clone();
+        a.sort();
+        v.insert(format!("worker.{}.status", id), w.status.to_string());
+        v.insert(format!("worker.{}.assigned_pipelines", id), format!("{:?}", a));
+        v.insert(format!("worker.{}.pipelines_running", id), w.capacity.pipelines_running.to_string());
+    }
+    for (gid, g) in &c.pipeline_groups {
+        let mut p: Vec<String> = g.placements.iter().map(|(n, d)| format!("{}@{}:{:?}", n, d.worker_id, d.status)).collect();
+        p.sort();
+        v.insert(format!("group.{}.placements", g.name.clone() + "/" + &gid[..4.min(gid.len())]), format!("{:?}", p));
+    }
+    for (n, cn) in &c.connectors {
+        v.insert(format!("connector.{}", n), format!("{}:{:?}", cn.connector_type, { let mut p: Vec<_> = cn.params.iter().collect(); p.sort(); p }));
+    }
+    v
+}
+
+fn field_kind(k: &str) -> String {
+    // worker.w1.status -> worker.status ; group.x.placements -> group.placements ; connector.x -> connector
+    let parts: Vec<&str> = k.split('.').collect();
+    match parts[0] {
+        "worker" => format!("worker.{}", parts.last().unwrap_or(&"")),
+        "group" => "group.placements".into(),
+        _ => "connector".into(),
+    }
+}
+
+struct CNode {
+    id: u64,
+    coord: SharedCoordinator,
+    routes: Routes,
+    raft: Arc<varpulis_cluster::raft::VarpulisRaft>,
+}
+
+/// health tick with the sync step bracketed by two views
+async fn tick_observed(n: &CNode, reverted: &mut Vec<(String, String)>) {
+    sync_clock();
+    {
+        let mut c = n.coord.write().await;
+        c.update_raft_role();
+        let is_leader = c.ha_role.is_writer();
+        let before = view(&c);
+        c.sync_from_raft();
+        let after = view(&c);
+        if is_leader {
+            for (k, b) in &before {
+                match after.get(k) {
+                    Some(a) if a == b => {}
+                    Some(a) => reverted.push((field_kind(k), format!("node {} (leader): sync_from_raft changed {} from {} back to {}", n.id, k, b, a))),
+                    None => reverted.push((field_kind(k), format!("node {} (leader): sync_from_raft removed {} (was {})", n.id, k, b))),
+                }
+            }
+            for (k, a) in &after {
+                if !before.contains_key(k) {
+                    reverted.push((field_kind(k) + ";reappeared", format!("node {} (leader): sync_from_raft brought back {} = {}", n.id, k, a)));
+                }
+            }
+        }
+    }
+    // the rest of the loop body
+    let mut c = n.coord.write().await;
+    if !c.ha_role.is_writer() {
+        return;
+    }
+    let result = c.health_sweep();
+    let failed: Vec<WorkerId> = result.workers_marked_unhealthy.clone();
+    if !failed.is_empty() {
+        if let Some(handle) = c.raft_handle.as_ref().map(|h| h.raft.clone()) {
+            for wid in &failed {
+                let _ = handle.client_write(varpulis_cluster::raft::ClusterCommand::WorkerStatusChanged { id: wid.0.clone(), status: "unhealthy".to_string() }).await;
+            }
+        }
+        for wid in &failed {
+            c.handle_worker_failure(wid).await;
+        }
+    }
+    let _ = c.check_connector_health();
+    c.cleanup_completed_migrations(Duration::from_secs(3600));
+    if c.pending_rebalance {
+        let _ = c.reconcile_placements().await;
+        let _ = c.rebalance().await;
+    }
+    let _ = c.evaluate_scaling();
+    c.fire_scaling_webhook().await;
+}
+
+pub fn run_c38(batch: &str, tape: &mut Tape, rep: &mut Report) {
+    let seed = tape.draw(u64::MAX);
+    let nnodes: u64 = if batch.starts_with("single") { 1 } else { 3 };
+    let quiet = batch.ends_with("replicated-ops");
+    let nworkers = tape.range(2, 3);
+    let nops = tape.range(4, 14);
+    #[derive(Clone, Debug)]
+    enum Op { Deploy(u64), Teardown(u64), Migrate(u64, u64), Drain(u64), Rebalance, ConnCreate(u64), ConnUpdate(u64), ConnDelete(u64), WorkerDies(u64), WorkerBack(u64), IsolateLeader, Wait(u64) }
+    let mut ops = vec![];
+    for _ in 0..nops {
+        let w = tape.range(1, nworkers);
+        let o = match tape.draw(if quiet { 6 } else { 14 }) {
+            0 | 1 => Op::ConnCreate(tape.draw(3)),
+            2 => Op::ConnUpdate(tape.draw(3)),
+            3 => Op::ConnDelete(tape.draw(3)),
+            4 => Op::Teardown(tape.draw(2)),
+            5 => Op::Wait(tape.range(1, 12)),
+            6 | 7 | 8 => Op::Deploy(tape.draw(2)),
+            9 => Op::Migrate(tape.draw(2), w),
+            10 => Op::Drain(w),
+            11 => Op::Rebalance,
+            12 => if tape.chance(1, 2) { Op::WorkerDies(w) } else { Op::WorkerBack(w) },
+            _ => if nnodes > 1 { Op::IsolateLeader } else { Op::Wait(6) },
+        };
+        ops.push(o);
+    }
+    rep.config = format!("batch={} coordinators={} workers={} ops={:?}", batch, nnodes, nworkers, ops);
+    rep.log(format!("config {}", rep.config));
+    let mut seed_bytes = [0u8; 32];
+    seed_bytes[..8].copy_from_slice(&seed.to_le_bytes());
+    let rt = tokio::runtime::Builder::new_current_thread().enable_time().start_paused(true).rng_seed(tokio::runtime::RngSeed::from_bytes(&seed_bytes)).build().expect("rt");
+    let net = new_net(seed ^ 0xc38);
+    net.lock().unwrap().cfg.max_latency_ms = *tape.pick(&[0u64, 5, 50]);
+    net.lock().unwrap().wcfg.max_latency_ms = 20;
+    varpulis_cluster::verif_http::set_transport(Some(transport(net.clone())));
+    let key = "admin-key".to_string();
+    let out: Result<(Vec<(String, String)>, Vec<String>), String> = rt.block_on(async {
+        start_clock();
+        let peers: Vec<String> = (1..=nnodes).map(crate::cluster::addr).collect();
+        let peer_map: BTreeMap<u64, String> = (1..=nnodes).map(|i| (i, crate::cluster::addr(i))).collect();
+        let rbac = Arc::new(RbacConfig::single_key(key.clone()));
+        let mut nodes: Vec<CNode> = vec![];
+        for id in 1..=nnodes {
+            // the real bootstrap: MemStore, NetworkFactory, openraft config, initialise on node 1
+            if std::env::var("VSIM_DEBUG").is_ok() { eprintln!("bootstrapping node {}", id); }
+            let b = varpulis_cluster::raft::bootstrap(id, &peers, rbac.any_admin_key()).await.map_err(|e| format!("bootstrap: {e}"))?;
+            if std::env::var("VSIM_DEBUG").is_ok() { eprintln!("bootstrapped node {}", id); }
+            let mut c = Coordinator::with_raft(b.raft.clone(), b.shared_state.clone(), peer_map.clone(), rbac.any_admin_key());
+            c.heartbeat_timeout = Duration::from_secs(15);
+            let coord: SharedCoordinator = Arc::new(tokio::sync::RwLock::new(c));
+            let routes: Routes = varpulis_cluster::api::cluster_routes_with_raft(coord.clone(), rbac.clone(), b.raft.clone(), None).map(|r| warp::Reply::into_response(r)).boxed();
+            net.lock().unwrap().routes.insert(crate::cluster::host(id), routes.clone());
+            nodes.push(CNode { id, coord, routes, raft: b.raft });
+        }
+        if std::env::var("VSIM_DEBUG").is_ok() { eprintln!("bootstrapped"); }
+        tokio::time::sleep(Duration::from_secs(5)).await; // leader election
+        if std::env::var("VSIM_DEBUG").is_ok() { eprintln!("after election sleep"); }
+        let call = |routes: Routes, method: &'static str, path: String, body: Option<Value>, key: String| async move {
+            let mut rq = warp::test::request().method(method).path(&path).header("x-api-key", key);
+            if let Some(b) = &body { rq = rq.json(b); }
+            sync_clock();
+            let r = tokio::spawn(async move { rq.reply(&routes).await }).await.expect("request task");
+            Resp { status: r.status().as_u16(), json: serde_json::from_slice(r.body()).unwrap_or(Value::Null) }
+        };
+        let mut log = vec![];
+        // workers register at their home coordinator (any node; followers forward to the leader)
+        for i in 1..=nworkers {
+            net.lock().unwrap().workers.insert(whost(i), SimWorker { up: true, ..Default::default() });
+            let home = &nodes[((i - 1) % nnodes) as usize];
+            let r = call(home.routes.clone(), "POST", "/api/v1/cluster/workers/register".into(), Some(json!({"worker_id": format!("w{}", i), "address": waddr(i), "api_key": "k", "capacity": {"cpu_cores": 4, "pipelines_running": 0, "max_pipelines": 10}})), key.clone()).await;
+            log.push(format!("register w{} at node {} -> {}", i, home.id, r.status));
+            if std::env::var("VSIM_DEBUG").is_ok() { eprintln!("{}", log.last().unwrap()); }
+        }
+        let groups: Arc<Mutex<BTreeMap<u64, (String, String)>>> = Arc::new(Mutex::new(BTreeMap::new()));
+        let shared_log: Arc<Mutex<Vec<String>>> = Arc::new(Mutex::new(vec![]));
+        let shared_rev: Arc<Mutex<Vec<(String, String)>>> = Arc::new(Mutex::new(vec![]));
+        let nodes = Arc::new(nodes);
+        let mut t_s = 5u64;
+        let mut next_tick = 10u64;
+        let mut next_hb = 6u64;
+        let mut gen = 0u64;
+        // one simulated second at a time: heartbeats every 5 s, the health loop of every node every 5 s (one
+        // iteration at a time per node, as in the real loop), one operation every 2 s. Operations and ticks are their
+        // own tasks: one that blocks (e.g. a write on a cut-off stale leader) must not stop time or the healing of faults.
+        let mut pending: Vec<Op> = ops.clone();
+        pending.reverse();
+        let mut wait_until = 0u64;
+        let mut heal_at: Option<u64> = None;
+        let mut tick_tasks: BTreeMap<u64, tokio::task::JoinHandle<()>> = BTreeMap::new();
+        let mut op_tasks: Vec<tokio::task::JoinHandle<()>> = vec![];
+        let end = 5 + (nops * 2) + 45;
+        while t_s < end {
+            tokio::time::sleep(Duration::from_secs(1)).await;
+            t_s += 1;
+            sync_clock();
+            if let Some(h) = heal_at {
+                if t_s >= h {
+                    net.lock().unwrap().isolated.clear();
+                    net.lock().unwrap().fault("heal");
+                    shared_log.lock().unwrap().push(format!("t={}s partition healed", t_s));
+                    heal_at = None;
+                }
+            }
+            if t_s >= next_hb {
+                next_hb += 5;
+                let ws: Vec<(u64, usize)> = (1..=nworkers).filter_map(|i| net.lock().unwrap().workers.get(&whost(i)).filter(|w| w.up).map(|w| (i, w.pipelines.len()))).collect();
+                for (i, n) in ws {
+                    let routes = nodes[((i - 1) % nnodes) as usize].routes.clone();
+                    let key = key.clone();
+                    op_tasks.push(tokio::spawn(async move {
+                        let _ = call(routes, "POST", format!("/api/v1/cluster/workers/w{}/heartbeat", i), Some(json!({"events_processed": 0, "pipelines_running": n})), key).await;
+                    }));
+                }
+            }
+            if t_s >= next_tick {
+                next_tick += 5;
+                for idx in 0..nodes.len() {
+                    let id = nodes[idx].id;
+                    if tick_tasks.get(&id).map(|h| !h.is_finished()).unwrap_or(false) {
+                        continue; // the previous iteration of this node's loop is still running
+                    }
+                    let (nodes, shared_rev, shared_log) = (nodes.clone(), shared_rev.clone(), shared_log.clone());
+                    tick_tasks.insert(id, tokio::spawn(async move {
+                        let mut rev = vec![];
+                        tick_observed(&nodes[idx], &mut rev).await;
+                        for (k, d) in rev {
+                            shared_log.lock().unwrap().push(format!("t={}s {}", t_s, d));
+                            shared_rev.lock().unwrap().push((k, d));
+                        }
+                    }));
+                }
+            }
+            if t_s % 2 == 0 && t_s >= wait_until {
+                if let Some(op) = pending.pop() {
+                    gen += 1;
+                    let tidx = (gen % nnodes) as usize;
+                    match &op {
+                        Op::WorkerDies(w) => {
+                            if let Some(x) = net.lock().unwrap().workers.get_mut(&whost(*w)) { x.up = false; x.pipelines.clear(); }
+                            net.lock().unwrap().fault("worker-died");
+                            shared_log.lock().unwrap().push(format!("t={}s worker w{} dies", t_s, w));
+                            continue;
+                        }
+                        Op::IsolateLeader => {
+                            let leader = nodes[0].raft.metrics().borrow().current_leader.unwrap_or(1);
+                            let mut g = net.lock().unwrap();
+                            g.isolated.clear();
+                            g.isolated.insert(leader);
+                            g.fault("partition-leader");
+                            heal_at = Some(t_s + 8);
+                            shared_log.lock().unwrap().push(format!("t={}s leader node {} cut off for 8 s", t_s, leader));
+                            continue;
+                        }
+                        Op::Wait(sec) => { wait_until = t_s + sec; continue; }
+                        _ => {}
+                    }
+                    let (nodes, groups, net, key, shared_log) = (nodes.clone(), groups.clone(), net.clone(), key.clone(), shared_log.clone());
+                    op_tasks.push(tokio::spawn(async move {
+                        let target = &nodes[tidx];
+                        let res = match &op {
+                            Op::Deploy(slot) => {
+                                let pipes = vec![(format!("p{}a_{}", slot, gen), None, 1usize), (format!("p{}b_{}", slot, gen), None, 1)];
+                                let r = call(target.routes.clone(), "POST", "/api/v1/cluster/pipeline-groups".into(), Some(spec(&format!("g{}", slot), &pipes)), key.clone()).await;
+                                if r.status / 100 == 2 { if let Some(id) = r.json["id"].as_str() { groups.lock().unwrap().insert(*slot, (id.to_string(), format!("p{}a_{}", slot, gen))); } }
+                                r.status
+                            }
+                            Op::Teardown(slot) => { let g = groups.lock().unwrap().remove(slot); match g { Some((g, _)) => call(target.routes.clone(), "DELETE", format!("/api/v1/cluster/pipeline-groups/{}", g), None, key.clone()).await.status, None => 0 } }
+                            Op::Migrate(slot, w) => { let g = groups.lock().unwrap().get(slot).cloned(); match g { Some((g, p)) => call(target.routes.clone(), "POST", format!("/api/v1/cluster/pipelines/{}/{}/migrate", g, p), Some(json!({"target_worker_id": format!("w{}", w)})), key.clone()).await.status, None => 0 } }
+                            Op::Drain(w) => call(target.routes.clone(), "POST", format!("/api/v1/cluster/workers/w{}/drain", w), Some(json!({})), key.clone()).await.status,
+                            Op::Rebalance => call(target.routes.clone(), "POST", "/api/v1/cluster/rebalance".into(), None, key.clone()).await.status,
+                            Op::ConnCreate(k) => call(target.routes.clone(), "POST", "/api/v1/cluster/connectors".into(), Some(json!({"name": format!("conn{}", k), "connector_type": "mqtt", "params": {"host": format!("h{}", gen)}})), key.clone()).await.status,
+                            Op::ConnUpdate(k) => call(target.routes.clone(), "PUT", format!("/api/v1/cluster/connectors/conn{}", k), Some(json!({"name": format!("conn{}", k), "connector_type": "mqtt", "params": {"host": format!("u{}", gen)}})), key.clone()).await.status,
+                            Op::ConnDelete(k) => call(target.routes.clone(), "DELETE", format!("/api/v1/cluster/connectors/conn{}", k), None, key.clone()).await.status,
+                            Op::WorkerBack(w) => {
+                                let was_down = net.lock().unwrap().workers.get(&whost(*w)).map(|x| !x.up).unwrap_or(false);
+                                if was_down {
+                                    net.lock().unwrap().workers.get_mut(&whost(*w)).unwrap().up = true;
+                                    net.lock().unwrap().fault("worker-restarted");
+                                    let home = &nodes[((w - 1) % nodes.len() as u64) as usize];
+                                    call(home.routes.clone(), "POST", "/api/v1/cluster/workers/register".into(), Some(json!({"worker_id": format!("w{}", w), "address": waddr(*w), "api_key": "k", "capacity": {"cpu_cores": 4, "pipelines_running": 0, "max_pipelines": 10}})), key.clone()).await.status
+                                } else { 0 }
+                            }
+                            _ => 0,
+                        };
+                        shared_log.lock().unwrap().push(format!("op #{} {:?} at node {} -> {}", gen, op, target.id, res));
+                    }));
+                }
+            }
+        }
+        for t in op_tasks { t.abort(); }
+        for (_, t) in tick_tasks { t.abort(); }
+        let mut log: Vec<String> = log;
+        log.extend(shared_log.lock().unwrap().drain(..));
+        let mut reverted: Vec<(String, String)> = shared_rev.lock().unwrap().drain(..).collect();
+        let _ = &mut reverted;
+        // quiescence: a follower's view equals the leader's
+        let mut follower_diffs = vec![];
+        if nnodes > 1 {
+            let leader_id = nodes.iter().find_map(|n| { let m = n.raft.metrics().borrow().clone(); if m.current_leader == Some(m.id) { Some(m.id) } else { None } });
+            if let Some(l) = leader_id {
+                let lv = view(&*nodes[(l - 1) as usize].coord.read().await);
+                for n in nodes.iter() {
+                    if n.id == l { continue; }
+                    let fv = view(&*n.coord.read().await);
+                    for (k, a) in &lv {
+                        if k.ends_with("pipelines_running") { continue; }
+                        if fv.get(k) != Some(a) {
+                            follower_diffs.push((field_kind(k), format!("at quiescence node {} (follower) shows {} = {:?}, leader node {} shows {}", n.id, k, fv.get(k), l, a)));
+                        }
+                    }
+                    for k in fv.keys() {
+                        if !lv.contains_key(k) {
+                            follower_diffs.push((field_kind(k), format!("at quiescence node {} (follower) shows {} which the leader does not have", n.id, k)));
+                        }
+                    }
+                }
+            }
+        }
+        for n in nodes.iter() {
+            let _ = n.raft.shutdown().await;
+        }
+        for (k, d) in follower_diffs { reverted.push((format!("FOLLOWER|{}", k), d)); }
+        Ok((reverted, log))
+    });
+    varpulis_cluster::verif_http::set_transport(None);
+    drop(rt);
+    let g = net.lock().unwrap();
+    for (k, v) in &g.faults { *rep.faults.entry(k.clone()).or_insert(0) += v; }
+    match out {
+        Err(e) => rep.violate("harness-cluster-setup", "-", e),
+        Ok((reverted, log)) => {
+            for l in log { rep.log(l); }
+            rep.nontrivial = rep.trace.iter().filter(|l| l.contains(" op ") && (l.ends_with("-> 200") || l.ends_with("-> 201") || l.ends_with("-> 202"))).count() >= 2;
+            let mut seen = BTreeSet::new();
+            for (kind, detail) in reverted {
+                if let Some(k) = kind.strip_prefix("FOLLOWER|") {
+                    if seen.insert(format!("F{}", k)) { rep.violate("follower-view-differs-from-leader", &format!("{};{}", k, batch), detail); }
+                } else if seen.insert(kind.clone()) {
+                    rep.violate("sync-from-raft-reverted-a-change", &format!("{};{}", kind, batch), detail);
+                }
+            }
+        }
+    }
+    rep.ops += nops;
+}
